@@ -275,6 +275,70 @@ impl std::ops::Neg for Tag {
         Tag(mix("neg", self.0, 0))
     }
 }
+// A second operand type with the same behaviour and its own operator names ("t2.add", ...), so that
+// structs can have fields of DIFFERING types (a derive that applies one field's operator or type to
+// another field no longer type-checks or shows in the operator log).
+#[derive(Clone, Copy, PartialEq, Eq, Hash, Debug, Default)]
+pub struct Tag2(pub u64);
+
+macro_rules! tag2_binop {
+    ($($tr:ident $m:ident $atr:ident $am:ident),*) => {$(
+        impl std::ops::$tr for Tag2 {
+            type Output = Tag2;
+            fn $m(self, r: Tag2) -> Tag2 {
+                op(format!("t2.{}({},{})", stringify!($m), self.0, r.0));
+                Tag2(mix(concat!("t2.", stringify!($m)), self.0, r.0))
+            }
+        }
+        impl std::ops::$tr<Scalar> for Tag2 {
+            type Output = Tag2;
+            fn $m(self, r: Scalar) -> Tag2 {
+                op(format!("t2.{}_scalar({},{})", stringify!($m), self.0, r.0));
+                Tag2(mix(concat!("t2.", stringify!($m), "_scalar"), self.0, r.0))
+            }
+        }
+        impl std::ops::$atr for Tag2 {
+            fn $am(&mut self, r: Tag2) {
+                op(format!("t2.{}({},{})", stringify!($am), self.0, r.0));
+                self.0 = mix(concat!("t2.", stringify!($m)), self.0, r.0);
+            }
+        }
+        impl std::ops::$atr<Scalar> for Tag2 {
+            fn $am(&mut self, r: Scalar) {
+                op(format!("t2.{}_scalar({},{})", stringify!($am), self.0, r.0));
+                self.0 = mix(concat!("t2.", stringify!($m), "_scalar"), self.0, r.0);
+            }
+        }
+    )*};
+}
+tag2_binop!(Add add AddAssign add_assign, Sub sub SubAssign sub_assign, Mul mul MulAssign mul_assign,
+            Div div DivAssign div_assign, Rem rem RemAssign rem_assign, BitAnd bitand BitAndAssign bitand_assign,
+            BitOr bitor BitOrAssign bitor_assign, BitXor bitxor BitXorAssign bitxor_assign,
+            Shl shl ShlAssign shl_assign, Shr shr ShrAssign shr_assign);
+impl std::ops::Not for Tag2 {
+    type Output = Tag2;
+    fn not(self) -> Tag2 {
+        op(format!("t2.not({})", self.0));
+        Tag2(mix("t2.not", self.0, 0))
+    }
+}
+impl std::ops::Neg for Tag2 {
+    type Output = Tag2;
+    fn neg(self) -> Tag2 {
+        op(format!("t2.neg({})", self.0));
+        Tag2(mix("t2.neg", self.0, 0))
+    }
+}
+impl std::iter::Sum for Tag2 {
+    fn sum<I: Iterator<Item = Tag2>>(iter: I) -> Tag2 {
+        iter.fold(Tag2(SUM_ZERO), |a, b| a + b)
+    }
+}
+impl std::iter::Product for Tag2 {
+    fn product<I: Iterator<Item = Tag2>>(iter: I) -> Tag2 {
+        iter.fold(Tag2(PRODUCT_ONE), |a, b| a * b)
+    }
+}
 /// Empty sum/product identities are recognisable constants.
 pub const SUM_ZERO: u64 = 0x5a5a_0000_0000_0001;
 pub const PRODUCT_ONE: u64 = 0x5a5a_0000_0000_0002;
